@@ -1075,8 +1075,14 @@ def corpus_cases(r):
     return [b["case"] if "case" in b else b for b in r.corpus()]
 
 
+IL_PROGS = ["isNotCrossable", "isInside", "minCostPixelId", "findNearestPixel", "reconstructPath", "aStarSearch"]
+
+
 def replay_case(r, c):
     """run the oracle for one recorded case; returns the failure text or None"""
+    if "prog" in c:      # a case of an `il:<prog>` stream: generated ILang program vs the numba function
+        import il_corr
+        return f"il:{c['prog']}: generated program and numba function disagree" if il_corr.replay_case(c) else None
     if c["kind"] == "pixel":
         got, ys, p = real_pixel(c)
         if not isinstance(got, tuple):
@@ -1120,7 +1126,12 @@ def run(r, scale=1):
               "for unsigned, float32 neighbours, NaN, +-inf, 64-bit extremes, duplicates (only lists np.array holds exactly); "
               "walls: long rasters 12x40..20x70 (thorough: to 36x140) with a straight / L / two-armed wall near one end, "
               "free cells at its ends, start behind it, goals in line or on the diagonal with a free end and anywhere, "
-              "transposed/mirrored, both directions, conn 8 (80%) / 4, judged by an exact numba Dijkstra only. "
+              "transposed/mirrored, both directions, conn 8 (80%) / 4, judged by an exact numba Dijkstra only; "
+              "il:<prog>: the six generated ILang programs (Gen/IL.lean) vs the numba functions of pathfinding.py on "
+              "direct inputs (values NaN/+-0/+-inf/small; barrier lists to 6 entries; costs at / above the (h+w)^2 bound, "
+              "ties, NaN; snap classes lone / none / ring / keep; parent forests, unreached and half-set goals; mazes to 7x7 "
+              "with walls, islands, blocked end points, start = goal, custom offset arrays of unequal length), results and "
+              "every array compared exactly. "
               "Non-trivial = distinct case whose result is not the single start=goal cell.")
     # compile the numba kernels in this process (children are forked from it); the start cell is a
     # barrier, so the search loop is never entered
@@ -1155,6 +1166,10 @@ def run(r, scale=1):
     run_walls(r, (25 if quick else 500) * scale, WALL_SIZES_QUICK if quick else WALL_SIZES_QUICK + WALL_SIZES_BIG)
     run_searches(r, "malformed", malformed_cases(r.rng))
     run_rejections(r)
+    # layer T3: the programs generated statement by statement from pathfinding.py (Gen/IL.lean), the subjects of the
+    # refinement theorems il_* of Props/C14.lean, against the numba functions themselves
+    import il_corr
+    il_corr.stream(r, IL_PROGS, (600 if quick else 6000) * scale)
     r.assumptions += [
         "costs: theorems over exact arithmetic (any ordered field with s*s = 2); the float run is compared bit for bit with the model executed over IEEE doubles",
         "points are taken within half a cell of the axis extent (outside it the code mirrors about the first centre; not judged)",
@@ -1163,10 +1178,12 @@ def run(r, scale=1):
         "platform's ==, observed, not judged); barrier lists np.array holds exactly (no integer beyond 64 bits, no integer "
         "above 2^53 next to a float)",
     ]
-    r.trusted += ["hand model Model/AStar.lean: heuristic, step length, neighbour tables, relaxation body, pop bookkeeping, "
-                  "min-cost scan, barrier / inside tests, pixel rule and snap scan are proved equal to definitions generated "
-                  "from the source (Gen/AStarFacts.lean); the while-loop skeleton, _reconstruct_path and the wrapper's step "
-                  "order are tied by the correspondence run only",
+    r.trusted += ["hand model Model/AStar.lean: proved to be computed by the programs generated statement by statement from "
+                  "_is_not_crossable, _is_inside, _min_cost_pixel_id, _find_nearest_pixel, _reconstruct_path and _a_star_search "
+                  "(layer T3, Gen/IL.lean; theorems il_* of Props/C14.lean, for every number type incl. IEEE doubles); the "
+                  "T3 translator harness/facts_il.py is validated by the il:* streams; numba's int64 wrap-around is outside "
+                  "ILang (unbounded Int); the wrapper's step order (pixel ids -> inside check -> np.array(barriers) -> snap -> "
+                  "search -> DataArray) and _get_pixel_id are tied by the correspondence run and Gen/AStarFacts.lean",
                   "Lean `Float` = IEEE binary64 as in numba (add, sqrt, compare)"]
 
 
@@ -1186,6 +1203,8 @@ def search(r):
 
 def replay(r, body):
     c = body["case"]
+    if "prog" not in c and isinstance(c.get("case"), dict) and "prog" in c["case"]:
+        c = c["case"]
     txt = replay_case(r, c)
     if txt:
         print("still fails:", txt)
